@@ -42,6 +42,10 @@ func (p *ResetProcessor) UnmarshalYAML(value *yaml.Node) error {
 	if err != nil {
 		return err
 	}
+	if resolved == nil {
+		// the document root itself is tagged !reset: nothing is left to decode
+		return nil
+	}
 	return resolved.Decode(p.target)
 }
 
